@@ -728,6 +728,102 @@ theorem C17_logger_default_msg (p : Int) (hp : 1 ≤ p) (kwargsRepr : String) (o
   rw [C17_schedule_logger _ hp]
   rfl
 
+/-! ### Logger: constructor fallback and `logger_fn` branches (extension round 2) -/
+
+/-- **C17_logger_msg_gen_fallback.** `Logger(period, logger_fn, msg_gen=X, **kwargs)`: a NON-CALLABLE `X` (a string, a number, …) behaves
+exactly like an omitted `msg_gen` — the messages are the default text `"Epoch e: " + str(kwargs)` at exactly the scheduled epochs —
+while a callable `X = f` gives `f(state at e, e)` at exactly those epochs. -/
+theorem C17_logger_msg_gen_fallback (p : Int) (hp : 1 ≤ p) (kwargsRepr : String) (f : W → Int → String) (out : List String)
+    (evs : List (Ev W)) :
+    (Logger.new p (.nonCallable : MsgGenArg W) kwargsRepr) = Logger.new p .omitted kwargsRepr
+    ∧ (Logger.new p (.nonCallable : MsgGenArg W) kwargsRepr).run out evs
+        = .ok (out ++ (scheduled p evs).map (fun x => "Epoch " ++ toString x.1 ++ ": " ++ kwargsRepr))
+    ∧ (Logger.new p (.callable f) kwargsRepr).run out evs = .ok (out ++ (scheduled p evs).map (fun x => f x.2 x.1)) := by
+  refine ⟨rfl, C17_logger_default_msg p hp kwargsRepr out evs, ?_⟩
+  exact C17_schedule_logger (Logger.new p (.callable f) kwargsRepr) hp out evs
+
+/-- **C17_logger_fn_branches.** Which lines a logger of period `p ≥ 1` emits, for every event stream: with the default
+`logger_fn=print` exactly one stdout line per scheduled epoch (`p ∣ e`, fired), in order, with the generated message, and nothing
+is handed anywhere else; with a callable `logger_fn` the same messages are handed to it (this is `Logger.run`) and nothing is
+printed; with a NON-CALLABLE `logger_fn` the run is untouched as long as no scheduled epoch end occurs and is refused
+(`TypeError`) as soon as one does. -/
+theorem C17_logger_fn_branches (c : Logger W String) (hp : 1 ≤ c.period) (s : LogOut) (evs : List (Ev W)) :
+    c.runFn .print s evs = .ok ⟨s.handed, s.printed ++ (scheduled c.period evs).map (fun x => c.msgGen x.2 x.1)⟩
+    ∧ c.runFn .callable s evs = .ok ⟨s.handed ++ (scheduled c.period evs).map (fun x => c.msgGen x.2 x.1), s.printed⟩
+    ∧ (c.runFn .callable s evs).map LogOut.handed = c.run s.handed evs
+    ∧ (scheduled c.period evs = [] → c.runFn .nonCallable s evs = .ok s)
+    ∧ (scheduled c.period evs ≠ [] → c.runFn .nonCallable s evs = .error .TypeError) := by
+  have hprint : ∀ (evs : List (Ev W)) (s : LogOut), c.runFn .print s evs
+      = .ok ⟨s.handed, s.printed ++ (scheduled c.period evs).map (fun x => c.msgGen x.2 x.1)⟩ := by
+    intro evs
+    induction evs with
+    | nil => intro s; simp [Logger.runFn, runWith, scheduled, firedEpochs]
+    | cons ev rest ih =>
+      intro s
+      unfold Logger.runFn at ih ⊢
+      cases ev with
+      | epochEnd e w =>
+        simp only [runWith, Logger.stepFn, gate_pos hp]
+        rw [scheduled_cons_epochEnd]
+        by_cases hd : c.period ∣ e
+        · simp [hd, ih, List.append_assoc]
+        · simp [hd, ih]
+      | trainStart w => simpa [runWith, Logger.stepFn, scheduled_cons_other] using ih s
+      | epochStart e w => simpa [runWith, Logger.stepFn, scheduled_cons_other] using ih s
+      | batchStart e b w => simpa [runWith, Logger.stepFn, scheduled_cons_other] using ih s
+      | batchEnd e b w => simpa [runWith, Logger.stepFn, scheduled_cons_other] using ih s
+      | trainEnd w => simpa [runWith, Logger.stepFn, scheduled_cons_other] using ih s
+  have hcall : ∀ (evs : List (Ev W)) (s : LogOut), c.runFn .callable s evs
+      = .ok ⟨s.handed ++ (scheduled c.period evs).map (fun x => c.msgGen x.2 x.1), s.printed⟩ := by
+    intro evs
+    induction evs with
+    | nil => intro s; simp [Logger.runFn, runWith, scheduled, firedEpochs]
+    | cons ev rest ih =>
+      intro s
+      unfold Logger.runFn at ih ⊢
+      cases ev with
+      | epochEnd e w =>
+        simp only [runWith, Logger.stepFn, gate_pos hp]
+        rw [scheduled_cons_epochEnd]
+        by_cases hd : c.period ∣ e
+        · simp [hd, ih, List.append_assoc]
+        · simp [hd, ih]
+      | trainStart w => simpa [runWith, Logger.stepFn, scheduled_cons_other] using ih s
+      | epochStart e w => simpa [runWith, Logger.stepFn, scheduled_cons_other] using ih s
+      | batchStart e b w => simpa [runWith, Logger.stepFn, scheduled_cons_other] using ih s
+      | batchEnd e b w => simpa [runWith, Logger.stepFn, scheduled_cons_other] using ih s
+      | trainEnd w => simpa [runWith, Logger.stepFn, scheduled_cons_other] using ih s
+  have hnon : ∀ evs : List (Ev W), (scheduled c.period evs = [] → c.runFn .nonCallable s evs = .ok s)
+      ∧ (scheduled c.period evs ≠ [] → c.runFn .nonCallable s evs = .error .TypeError) := by
+    intro evs
+    induction evs with
+    | nil => simp [Logger.runFn, runWith, scheduled, firedEpochs]
+    | cons ev rest ih =>
+      unfold Logger.runFn at ih ⊢
+      cases ev with
+      | epochEnd e w =>
+        simp only [runWith, Logger.stepFn, gate_pos hp]
+        rw [scheduled_cons_epochEnd]
+        by_cases hd : c.period ∣ e
+        · simp [hd]
+        · simpa [hd] using ih
+      | trainStart w => simpa [runWith, Logger.stepFn, scheduled_cons_other] using ih
+      | epochStart e w => simpa [runWith, Logger.stepFn, scheduled_cons_other] using ih
+      | batchStart e b w => simpa [runWith, Logger.stepFn, scheduled_cons_other] using ih
+      | batchEnd e b w => simpa [runWith, Logger.stepFn, scheduled_cons_other] using ih
+      | trainEnd w => simpa [runWith, Logger.stepFn, scheduled_cons_other] using ih
+  refine ⟨hprint evs s, hcall evs s, ?_, (hnon evs).1, (hnon evs).2⟩
+  rw [hcall evs s, C17_schedule_logger c hp]
+  rfl
+
+/-- a non-trivial instance: period 2 over epoch ends 1..4 with `print`: exactly the lines for epochs 2 and 4; a non-callable
+`logger_fn` is refused on the same stream and untouched on a stream that ends before epoch 2 -/
+example : (Logger.new 2 (.nonCallable : MsgGenArg Unit) "{}").runFn .print ⟨[], []⟩
+      [.epochEnd 1 (), .epochEnd 2 (), .epochEnd 3 (), .epochEnd 4 ()] = .ok ⟨[], ["Epoch 2: {}", "Epoch 4: {}"]⟩
+    ∧ (Logger.new 2 (.omitted : MsgGenArg Unit) "{}").runFn .nonCallable ⟨[], []⟩ [.epochEnd 1 (), .epochEnd 2 ()] = .error .TypeError
+    ∧ (Logger.new 2 (.omitted : MsgGenArg Unit) "{}").runFn .nonCallable ⟨[], []⟩ [.epochEnd 1 ()] = .ok ⟨[], []⟩ := by
+  refine ⟨by decide, by decide, by decide⟩
+
 /-! ### composition with C12: the stream a real `fit(starting_epoch, epochs)` produces -/
 
 /-- a `fit` event (C12's `QV.Train.Event`) as the callbacks receive it, `wof ev` being the world (the state being
